@@ -116,3 +116,18 @@ Check C11.C11_source_absolute_height.
 Theorem C02_absolute_height_total : ltac:(restate C11.C11_source_absolute_height).
 Proof. exact C11.C11_source_absolute_height. Qed.
 Print Assumptions C02_absolute_height_total.
+
+(* the page loop never emits an unbounded number of pages for finite content: it finishes (PDone) within
+   page_bound root = 2 * (boxes + lines) pages, whatever the page height; the root is never aborted *)
+Check C03.C03_pagination_terminates.
+Theorem C02_pagination_bounded_pages : ltac:(restate C03.C03_pagination_terminates).
+Proof. exact C03.C03_pagination_terminates. Qed.
+Print Assumptions C02_pagination_bounded_pages.
+Check C03.C03_page_makes_progress.
+Theorem C02_page_layout_never_aborts_on_empty_page : ltac:(restate C03.C03_page_makes_progress).
+Proof. exact C03.C03_page_makes_progress. Qed.
+Print Assumptions C02_page_layout_never_aborts_on_empty_page.
+Check C03.C03_never_stuck.
+Theorem C02_page_loop_never_stuck : ltac:(restate C03.C03_never_stuck).
+Proof. exact C03.C03_never_stuck. Qed.
+Print Assumptions C02_page_loop_never_stuck.
